@@ -1,0 +1,11 @@
+//go:build verif
+
+package gate
+
+import "go.minekube.com/gate/pkg/gate/config"
+
+// Verification hook for property C37 (config validation / reload round trip). Thin forwarding only.
+
+func C37DecodeConfigStrict(b []byte, extension string, candidate *config.Config) error {
+	return decodeConfigStrict(b, extension, candidate)
+}
